@@ -24,6 +24,7 @@ import (
 	"math/rand"
 	"net/http"
 	"os"
+	"path/filepath"
 	"strings"
 	"time"
 
@@ -425,6 +426,7 @@ type bytesCaseJSON struct {
 	Label  string `json:"label"`
 	Status int    `json:"status"`
 	Body   string `json:"body_hex"`
+	Look   string `json:"lookups_hex"` // the links asked for with Get, comma separated
 	Resp   string `json:"client_execute"`
 	Req    string `json:"request_decode"`
 	Handle string `json:"server_request,omitempty"`
@@ -469,7 +471,11 @@ func (s *bytesSet) finish(dir string, shards int) error {
 	byKind := map[string]map[string]int{}
 	panics := []map[string]any{}
 	for i, c := range s.cases {
-		j := bytesCaseJSON{Id: i, Label: c.Label, Status: c.Status, Body: hex.EncodeToString(c.Body), Resp: c.Resp.summary(), Req: c.Req.summary()}
+		var lk []string
+		for _, l := range c.Lookups {
+			lk = append(lk, hex.EncodeToString([]byte(l.Binary())))
+		}
+		j := bytesCaseJSON{Id: i, Label: c.Label, Status: c.Status, Body: hex.EncodeToString(c.Body), Look: strings.Join(lk, ","), Resp: c.Resp.summary(), Req: c.Req.summary()}
 		if c.Handle != 0 {
 			j.Handle = fmt.Sprintf("status %d", c.HStatus)
 		}
@@ -1107,7 +1113,7 @@ func (b *bytesC15) finish(dir string) error {
 func init() {
 	extraCmds["bytes-one"] = func(args []string) int {
 		if len(args) < 2 {
-			fmt.Fprintln(os.Stderr, "usage: harness bytes-one <hex body> <outdir> [status [seed]]")
+			fmt.Fprintln(os.Stderr, "usage: harness bytes-one <hex body> <outdir> [status [seed [lookup,lookup,...]]]")
 			return 2
 		}
 		body, err := hex.DecodeString(args[0])
@@ -1129,6 +1135,23 @@ func init() {
 			look = append(look, inv.Link())
 		}
 		look = append(look, fakeLink(1))
+		if len(args) > 4 && args[4] != "" {
+			// the lookup links of the original case (token links carry wall-clock fields and are not reproducible)
+			look = nil
+			for _, h := range strings.Split(args[4], ",") {
+				b, err := hex.DecodeString(h)
+				if err != nil {
+					fmt.Fprintln(os.Stderr, err)
+					return 2
+				}
+				c, err := cid.Cast(b)
+				if err != nil {
+					fmt.Fprintln(os.Stderr, err)
+					return 2
+				}
+				look = append(look, cidlink.Link{Cid: c})
+			}
+		}
 		c := &bytesCase{Label: "replay", Body: body, Status: status, Lookups: look}
 		c.Resp = bytesObserveResp(body, status, look, invs, service)
 		c.Req = bytesObserveReq(body, look)
@@ -1252,15 +1275,40 @@ func bytesC20(o genOpts, e *c20Env) error {
 // C11: the raw request stream (mutations of a valid request body, executed in the child process through
 // Server.Request with acceptable headers): status 400 exactly when the model says "undecodable"
 
+func bytesC11Limit(tier string) int {
+	if tier == "thorough" {
+		return 6000
+	}
+	return 300
+}
+
+// bytesC11Keep (child process): keep the body of raw item i for the parent, for the first bytesC11Limit raw items
+func bytesC11Keep(out, tier string, items []*c11Item, i int) {
+	ord := 0
+	for j := i - 1; j >= 0 && items[j].Kind == "raw"; j-- {
+		ord++
+		if ord > bytesC11Limit(tier) {
+			return
+		}
+	}
+	if ord < bytesC11Limit(tier) {
+		os.WriteFile(filepath.Join(out, fmt.Sprintf("raw_%06d.bin", i)), items[i].Raw, 0o644)
+		if c11RawBase != nil {
+			os.WriteFile(filepath.Join(out, "raw_base.bin"), c11RawBase, 0o644)
+		}
+	}
+}
+
 func bytesC11(o genOpts, raws [][]byte, doneLines []string) error {
 	set := &bytesSet{prefix: "bytes_C11"}
-	if c11RawBase != nil {
+	// the valid body the child mutated (bodies are only DESCRIBED relative to it), else this process's copy
+	if b, err := os.ReadFile(filepath.Join(o.out, "raw_base.bin")); err == nil {
+		set.addBase(b)
+		os.Remove(filepath.Join(o.out, "raw_base.bin"))
+	} else if c11RawBase != nil {
 		set.addBase(c11RawBase)
 	}
-	limit := 300
-	if o.tier == "thorough" {
-		limit = 6000
-	}
+	limit := bytesC11Limit(o.tier)
 	look := []ipld.Link{fakeLink(1)}
 	for i, raw := range raws {
 		if i >= limit {
